@@ -69,7 +69,7 @@ func init() {
 		Rule: "a closed-loop run without faults: 1-4 initial shards, 2-12 targets (sizes small / mid / big / oversized / zero, unhealthy, late), an arbitrary initial placement posted to the real sidecars (single, duplicate, pending transfer, stuck in_transfer copies), a workload phase of 4-30 cycles with drawn events (targets discovered / removed, growth, health flips, head GC, configuration edits), then a quiet phase; the real coordinator runs its cycles on the fake clock against real sidecars scraped by Prometheus stubs; the end-state predicate must hold within the budget and stay unchanged for 12 more cycles; at every cycle with all shards in sync an eligible unscraped target that was not placed must raise the requested shard count; a case is (initial shards, targets/3, initial placement size, events, head limit?, idle time?)",
 		Real: realWorld, Stub: stubWorld,
 		SchedLabels: []string{"release", "inject_fault", "fault_kind", "fault_pod", "fault_window_s", "hold_scrape", "pod_order", "map_salt?", "map_salt.a", "map_salt.b", "rand_seed", "event_at", "event_kind"},
-		Assume: []string{"budget: 140 fault-free cycles of 10 s in the quiet phase (measured worst case is reported by the probe cycles_to_converge); max-shard = targets + 4 so that 'enough allowed shards' holds", "eligible = discovered, target stub healthy, strictly below both limits on an empty shard; targets exactly at a limit and unhealthy targets are not asserted on"},
+		Assume:      []string{"budget: 140 fault-free cycles of 10 s in the quiet phase (measured worst case is reported by the probe cycles_to_converge); max-shard = targets + 4 so that 'enough allowed shards' holds", "eligible = discovered, target stub healthy, strictly below both limits on an empty shard; targets exactly at a limit and unhealthy targets are not asserted on"},
 	})
 	core.Register(&core.Spec{
 		ID: "C06", Engine: "world", Run: worldRun(WGen{Faults: true}, cyc.Which{}, "C06"),
@@ -77,6 +77,6 @@ func init() {
 		Rule: "the C03 closed loop with a fault phase: up to 4 faults from a drawn enabled subset of {target POST lost before / after taking effect, sidecar restart from its store, shard not ready (window), shard unreachable (window), GETs failing (window), external scale change, coordinator configuration edit with file-mode sidecars rolled out late}, decided at cycle boundaries and biased to cycles that posted transfers or assignments; then all fault windows end and the quiet phase must reach the C03 end state (nothing in_transfer, duplicated or unscraped for ever); a case is the scenario shape x enabled fault kinds",
 		Real: realWorld, Stub: stubWorld,
 		SchedLabels: []string{"release", "inject_fault", "fault_kind", "fault_pod", "fault_window_s", "hold_scrape", "pod_order", "map_salt?", "map_salt.a", "map_salt.b", "rand_seed", "event_at", "event_kind"},
-		Assume: []string{"same budget and eligibility as C03, counted from the start of the quiet phase (all fault windows are ended there)"},
+		Assume:      []string{"same budget and eligibility as C03, counted from the start of the quiet phase (all fault windows are ended there)"},
 	})
 }
